@@ -1082,7 +1082,50 @@ def e_examples(tier):
         yield {"family": "lattice", "unit": 0.125, "crs": {"label": "4326", "spell": "str_lower"}, "geom": ["GeometryCollection", [["LinearRing", box], ["GeometryCollection", [["Point", [0.0, 0.0]], ["MultiLineString", [hole, [[0.0, 0.0], [0.0, 9.0]]]]]]]], "res": res, "placement": "one"}
 
 
+# ----------------------------------------------------------------------------- to_crs after many short-lived CRSs
+_TMERC = "+proj=tmerc +lat_0=0 +lon_0=%.3f +k=1 +x_0=0 +y_0=0 +ellps=WGS84 +units=m +no_defs +type=crs"
+
+
+@st.composite
+def s_after_many(draw):
+    return {"start": draw(st.integers(-16000, 15000)), "n_fill": draw(st.sampled_from([60, 140, 280, 400])), "dst": draw(st.sampled_from(["4326", "3857", "6933"])),
+            "k": draw(st.integers(3, 8)), "pt": [draw(st.integers(-300000, 300000)), draw(st.integers(-4000000, 4000000))]}
+
+
+def o_after_many(case, T):
+    """'maps every vertex exactly as the projection library maps that point' must not depend on how many other CRSs
+    were used before: convert from hundreds of distinct short-lived CRSs, drop them, then convert from fresh ones."""
+    import gc
+
+    from odc.geo import geom as G
+    from odc.geo.crs import CRS
+    from pyproj import CRS as P
+    from pyproj import Transformer
+
+    dst = CRS("epsg:" + case["dst"])
+    x, y = case["pt"]
+    tmp = []
+    for i in range(case["n_fill"]):
+        g = G.point(x, y, CRS(_TMERC % ((case["start"] + i) * 0.01)))
+        tmp.append(g.to_crs(dst))
+    del tmp, g
+    gc.collect()
+    for j in range(case["k"]):
+        lon0 = (case["start"] + case["n_fill"] + 7 * j + 3) * 0.01 + 0.005
+        spec = _TMERC % lon0
+        g = G.line([(x, y), (x + 1000, y + 500)], CRS(spec))
+        out = g.to_crs(dst)
+        ex, ey = Transformer.from_crs(P.from_user_input(spec), P.from_epsg(int(case["dst"])), always_xy=True).transform([x, x + 1000], [y, y + 500])
+        for (gx, gy), wx, wy in zip(out.coords, ex, ey):
+            require(abs(gx - wx) <= 1e-9 * max(1, abs(wx)) and abs(gy - wy) <= 1e-9 * max(1, abs(wy)),
+                    "to_crs from tmerc(lon_0=%.3f) to EPSG:%s gives (%r, %r), a fresh pyproj transformer gives (%r, %r) [after %d other CRSs were used and dropped]",
+                    lon0, case["dst"], gx, gy, wx, wy, case["n_fill"])
+    T.nontrivial()
+    T.cls("fill_%d" % case["n_fill"])
+
+
 def build(chk: Check) -> None:
+    chk.sub("to_crs_after_many_crs", o_after_many, strategy=s_after_many(), n={"quick": 40, "thorough": 1500}, budget_s={"quick": 40, "thorough": 200}, shrink=False)
     # budgets are per sub-check per shard; their sum bounds the tier's wall time (quick 90 s, thorough 15 min)
     chk.sub("segmented_examples", o_segmented, enum=e_examples, exhaustive_tiers=("quick", "thorough"))
     chk.sub("segmented", o_segmented, strategy=s_segmented(), n={"quick": 6000, "thorough": 250000}, budget_s={"quick": 26, "thorough": 310})
